@@ -1,12 +1,84 @@
-"""scratch prototype"""
-import os, re
+"""CrossHair harnesses for C20 - optimistic concurrency control prevents lost updates.
+
+Environment argument (part of the claim): whatever other sessions do, they influence session A only through the
+*current row* at the moment A's UPDATE executes.  "All interleavings" is therefore replaced by "an arbitrary
+current row" (symbolic values, symbolic NULL flags, possibly deleted), decided at the one point where the database
+would decide it: the WHERE clause of the UPDATE statement that the real pony code sent.
+
+What runs (real code, imported from /repo): a whole `db_session` on a real `Database` (real SQLiteProvider /
+PGProvider, real SQL builders) over a recording fake DB-API: `E.get` / `E.get_for_update` (-> `_find_in_db_`,
+`_fetch_objects`, `_parse_row_`, `_db_set_`, `_set_rbits`), the attribute descriptors `Attribute.__get__` /
+`Attribute.__set__` (read / write tracking), the commit at session exit (`SessionCache.flush` -> `Entity._save_` ->
+`_save_updated_` -> `_construct_optimistic_criteria_`, `populate_criteria_list`, `Database._ast2sql`, the adapter,
+`Database._exec_sql`), the row-count test, `OptimisticCheckError` / `find_updated_attributes`, rollback.
+
+Entity under test (6 non-key attributes, one of each kind the mechanism distinguishes):
+    a  Required(int)                    plain                            -> checked
+    f  Required(float)                  excluded by its converter (RealConverter.optimistic = False)
+    x  Required(int, optimistic=False)  excluded by declaration
+    v  Optional(int, volatile=True)     volatile: never read-tracked
+    n  Optional(int)                    nullable (loaded as NULL or as a value) -> checked, IS NULL form
+    g  Optional(G)                      to-one reference (loaded as NULL or G[7]) -> checked
+
+Symbolic per harness: which attributes are read (R) and then assigned (W) through the public descriptors (booleans =
+the bits of `_rbits_` / `_wbits_`; the harness also asserts that the resulting masks are exactly R and W), the
+loaded row values, the assigned values, the current row (`C`: exists?, value and NULL flag per column).
+The masks are given as booleans rather than as one int because CrossHair forks per tested bit either way and
+`int & int` on a symbolic int costs 3x more per path.
+
+Reference statement (function `_core`; not a copy of pony's code):
+  S1 the UPDATE sets exactly the assigned attributes' columns to the assigned values (argument alignment included);
+  S2 its WHERE clause is a conjunction of `col = <param>` / `col IS NULL` terms, the first being the primary key;
+  S3 (emission) in an optimistic session and for an object not locked for update: for every attribute in
+     required = (R \\ W) /\\ {a, n, g} there is a term on its column comparing with the value that was READ
+     (`IS NULL` when NULL was read); no optimistic terms at all when the session is not optimistic or the object
+     was fetched with get_for_update (the property's two exemptions, as the design states them);
+  S4 (decision) the harness evaluates that WHERE text, with the arguments that were really sent, over the symbolic
+     current row using SQL semantics (`col = NULL` is never true) and reports rowcount 1 / 0 accordingly.
+     Asserted: row matched  =>  for every attribute in `required`: current value == value read (NULL-aware);
+     and, as a guard against a vacuous always-fail implementation: current row identical to the loaded row => matched;
+  S5 (outcome, optimistic session) matched <=> no error and exactly one commit(); not matched <=> the session raises
+     OptimisticCheckError (UnrepeatableReadError also accepted), commit() is never called and rollback() is.
+`track_step` is the inductive kernel for read/write tracking (K3): from ARBITRARY masks one descriptor read, one
+assignment or one query-read (`EntityMeta._set_rbits`) of a symbolic attribute changes the masks exactly as the rule
+says (read while not yet written -> read bit; volatile never; assignment -> write bit; nothing is ever cleared), so S3's
+`R` really is "every attribute the session read from the object before overwriting it", for any operation order.
+
+Bounds / restructuring w.r.t. DESIGN.md:
+  * the full product R x W over the six attributes is 2^11 mask states x match/no-match; it is covered in the quick
+    tier by eight harnesses `upd_w0..upd_w7` that differ only in the fixed triple (w_a, w_f, w_x) - a parallelisation
+    device, every harness is symbolic in the other 8 mask bits and all values.  In the quick tier those eight run
+    with the design's row shape (n loaded NULL, g loaded non-NULL, non-NULL assigned values, v not read); the other
+    shapes are symbolic in `upd_nulls` (n, g), `upd_volatile` (v), and in ALL eight under C20_FULL=1 (thorough).
+  * reference primary keys are concrete (7 loaded, 8 assigned): a symbolic key would be realised by the identity
+    map's dict lookup.  The current row's g column is a symbolic int.
+  * K2 uses the SQL text + arguments that reached the cursor instead of evaluating the AST with engine/symsql
+    (the WHERE clause is a conjunction of two term shapes; anything else fails the harness).
+  * PostgreSQL: `upd_pg` runs the same scenario on the real PGProvider / PG builder (pyformat parameters) over
+    the attributes a, n, g.  No server: the decision step is the harness' SQL-semantics evaluation in both cases.
+Outside: collections, composite keys, second UPDATE of the same object after an intermediate flush, deletes,
+the "commits none of its OTHER changes" part (rides on C17; here: commit() is not called at all).
+"""
+import math, os, re
+from typing import Tuple
 from engine.ch import ok
 
-db = None
-E = G = None
-POOL = None
+FULL = os.environ.get('C20_FULL') == '1'
+ATTRS = ('a', 'f', 'x', 'v', 'n', 'g')
+CHECKED = ('a', 'n', 'g')            # attributes for which optimistic checks are enabled (reference statement)
+LOADED_G, NEW_G = 7, 8
+ENVS = {}
+LAST = {}
+NPATH = [0]
+
+B3 = Tuple[bool, bool, bool]
+B6 = Tuple[bool, bool, bool, bool, bool, bool]
+LT = Tuple[int, float, int, int, bool, int, bool]            # a, f, x, v, n is NULL, n, g is NULL
+NT = Tuple[int, float, int, int, bool, int, bool]            # a, f, x, v, n := None, n, g := None
+CT = Tuple[bool, int, int, int, bool, int, bool, int]        # row exists, a, x, v, n is NULL, n, g is NULL, g
 
 
+# ---------------------------------------------------------------------------------------------- fake DB-API
 class Cursor(object):
     arraysize = 1
 
@@ -45,6 +117,8 @@ class Cursor(object):
 
 
 class Connection(object):
+    autocommit = True
+
     def __init__(self):
         self.reset()
 
@@ -53,6 +127,7 @@ class Connection(object):
         self.commits = 0
         self.rollbacks = 0
         self.responder = responder
+        self.autocommit = True
 
     def respond(self, sql, args):
         if self.responder is not None:
@@ -64,6 +139,7 @@ class Connection(object):
     def commit(self): self.commits += 1; self.log.append(('COMMIT', None))
     def rollback(self): self.rollbacks += 1; self.log.append(('ROLLBACK', None))
     def close(self): pass
+    def set_client_encoding(self, enc): pass
 
 
 class Pool(object):
@@ -74,15 +150,12 @@ class Pool(object):
     def disconnect(self): pass
 
 
-def setup():
-    global db, E, G, POOL
-    if db is not None: return
-    from engine import env
-    from pony.orm import core, PrimaryKey, Required, Optional, Set
-    core.time = lambda: 0.0
-    db = env.mock_database('sqlite')
-    POOL = Pool()
-    db.provider.pool = POOL
+class Env(object):
+    pass
+
+
+def declare(db):
+    from pony.orm import PrimaryKey, Required, Optional, Set
 
     class G(db.Entity):
         id = PrimaryKey(int)
@@ -90,59 +163,532 @@ def setup():
 
     class E(db.Entity):
         id = PrimaryKey(int)
-        a = Required(int)                       # plain
-        f = Required(float)                     # float: excluded from optimistic checks by its converter
-        x = Required(int, optimistic=False)     # excluded by declaration
-        v = Optional(int, volatile=True)        # volatile: never read-tracked
-        n = Optional(int)                       # nullable
-        g = Optional(G)                         # to-one reference
-    globals()['E'] = E
-    globals()['G'] = G
-    db.generate_mapping(check_tables=False)
+        a = Required(int)
+        f = Required(float)
+        x = Required(int, optimistic=False)
+        v = Optional(int, volatile=True)
+        n = Optional(int)
+        g = Optional(G)
+    return E, G
 
 
-def _reset():
+def _make(provider):
+    from engine import env
+    e = Env()
+    e.db = env.mock_database(provider)
+    e.pool = Pool()
+    e.db.provider.pool = e.pool
+    e.con = e.pool.con
+    e.E, e.G = declare(e.db)
+    e.db.generate_mapping(check_tables=False)
+    real_ast2sql = e.db._ast2sql
+
+    def ast2sql(sql_ast):
+        # the SQL AST holds column names and converter objects only (values travel through the adapter afterwards):
+        # the real builder runs outside CrossHair's opcode tracer, which changes cost, not behaviour
+        from crosshair.tracers import NoTracing, is_tracing
+        if is_tracing():
+            with NoTracing(): return real_ast2sql(sql_ast)
+        return real_ast2sql(sql_ast)
+    e.db._ast2sql = ast2sql
+    E = e.E
+    e.attr = {n: getattr(E, n) for n in ATTRS}
+    e.col = {n: e.attr[n].columns[0] for n in ATTRS}
+    e.bit = {n: E._bits_[e.attr[n]] for n in ATTRS}
+    e.nvbit = {n: E._bits_except_volatile_[e.attr[n]] for n in ATTRS}
+    return e
+
+
+def setup():
+    if ENVS: return
+    from pony.orm import core
+    core.time = lambda: 0.0
+    ENVS['sqlite'] = _make('sqlite')
+    ENVS['postgres'] = _make('postgres')
+
+
+def _reset(e):
+    NPATH[0] += 1
     from pony.orm import core
     core.local.db2cache.clear()
     core.local.db_session = None
     core.local.db_context_counter = 0
+    db = e.db
     db._dblocal.stats = {None: core.QueryStat(None)}
     db._dblocal.last_sql = None
-    lock = db.provider.transaction_lock
-    if lock.locked():
+    lock = getattr(db.provider, 'transaction_lock', None)
+    if lock is not None and lock.locked():
         try: lock.release()
         except Exception: pass
+    # statement caches keyed by (columns, operations): every explored path rebuilds its SQL from the AST
+    e.E._update_sql_cache_.clear()
 
 
-def probe(rbits: int, wbits: int, va: int, vx: int, vg: int, na: int, cur_a: int) -> bool:
-    """
-    pre: 0 <= rbits < 64 and 0 < wbits < 64
-    post: _
-    """
-    from pony.orm import db_session, core
-    _reset()
-    con = POOL.con
-    state = {}
+# ---------------------------------------------------------------------------------------------- SQL text
+class Unparsed(Exception):
+    pass
+
+
+_PH = r'(\?|%\(p\d+\)s)'
+_UPD = re.compile(r'UPDATE "(\w+)"\s+SET\s+(.*?)\s+WHERE\s+(.*)\Z', re.S)
+_SET = re.compile(r'"(\w+)" = ' + _PH + r'\Z')
+_EQ = re.compile(r'"(\w+)" = ' + _PH + r'\Z')
+_NULL = re.compile(r'"(\w+)" IS NULL\Z')
+_SEL = re.compile(r'SELECT\s+(.*?)\s+FROM\s+"(\w+)"', re.S)
+_PARSED = {}
+
+
+def parse_update(sql):
+    """(table, [(column, placeholder)], [('EQ', column, placeholder) | ('IS_NULL', column)]) of the statement text."""
+    r = _PARSED.get(sql)
+    if r is not None: return r
+    m = _UPD.match(sql)
+    if not m: raise Unparsed(sql)
+    sets = []
+    for item in m.group(2).split(','):
+        mm = _SET.match(item.strip())
+        if not mm: raise Unparsed('SET item %r' % item)
+        sets.append((mm.group(1), mm.group(2)))
+    terms = []
+    for t in re.split(r'\s+AND\s+', m.group(3).strip()):
+        mm = _EQ.match(t)
+        if mm: terms.append(('EQ', mm.group(1), mm.group(2))); continue
+        mm = _NULL.match(t)
+        if mm: terms.append(('IS_NULL', mm.group(1))); continue
+        raise Unparsed('WHERE term %r' % t)
+    r = _PARSED[sql] = (m.group(1), sets, terms)
+    return r
+
+
+def bind(sql, args):
+    """Pairs every placeholder of the text with the argument the driver would bind to it."""
+    table, sets, terms = parse_update(sql)
+    phs = [ph for _, ph in sets] + [t[2] for t in terms if t[0] == 'EQ']
+    if isinstance(args, dict):
+        look = lambda ph: args[ph[2:-2]]
+        if len(set(phs)) != len(phs) or len(args) != len(phs): raise Unparsed('placeholder/argument mismatch')
+        vals = [look(ph) for ph in phs]
+    else:
+        if len(args) != len(phs) or any(ph != '?' for ph in phs): raise Unparsed('placeholder/argument mismatch')
+        vals = list(args)
+    it = iter(vals)
+    sets = [(c, next(it)) for c, _ in sets]
+    terms = [('EQ', t[1], next(it)) if t[0] == 'EQ' else t for t in terms]
+    return table, sets, terms
+
+
+def select_columns(sql):
+    m = _SEL.match(sql)
+    if not m: return None, None
+    return m.group(2), [c.strip().strip('"') for c in m.group(1).split(',')]
+
+
+def _same(x, y):
+    return x is y or x == y
+
+
+# ---------------------------------------------------------------------------------------------- scenario
+def _core(R, W, L, N, C, optimistic=True, for_update=False, provider='sqlite', full=False):
+    from pony.orm import db_session
+    from pony.orm.core import OptimisticCheckError, UnrepeatableReadError
+    e = ENVS[provider]
+    _reset(e)
+    E, G, con, col = e.E, e.G, e.con, e.col
+    la, lf, lx, lv, ln_null, ln, lg_null = L
+    na, nf, nx, nv, nn_null, nn, ng_null = N
+    exists, ca, cx, cv, cn_null, cn, cg_null, cg = C
+    if not (full or FULL): lf, nf = 1.5, 2.5          # quick tier, main harnesses: float values fixed (they feed no decision)
+    loaded = {'id': 1, 'a': la, 'f': lf, 'x': lx, 'v': lv, 'n': None if ln_null else ln, 'g': None if lg_null else LOADED_G}
+    # current row as (is NULL, value) per column that may legitimately appear in an equality term
+    cur = {'id': (False, 1), 'a': (False, ca), 'x': (False, cx), 'v': (False, cv), 'n': (cn_null, cn), 'g': (cg_null, cg)}
+    st = {'updates': [], 'loads': 0, 'matched': None}
+    why = []
 
     def responder(sql, args):
-        if sql.startswith('SELECT'):
-            return [(1, va, 1.5, vx, 3, None, vg)], [], -1
+        table, cols = select_columns(sql)
+        if table == E._table_:
+            st['loads'] += 1
+            if st['loads'] == 1:
+                return [tuple(loaded[c] for c in cols)], [(c,) for c in cols], -1
+            # find_updated_attributes() after a failed check; its result only feeds the error message
+            now = dict(loaded, a=ca, x=cx, v=cv)
+            return [tuple(now[c] for c in cols)], [(c,) for c in cols], -1
+        if table == G._table_:
+            pk = args[0] if not isinstance(args, dict) else list(args.values())[0]
+            return [(pk,)], [('id',)], -1
         if sql.startswith('UPDATE'):
-            state['update'] = (sql, args)
-            return [], [], 1
+            try: tab, sets, terms = bind(sql, args)
+            except Unparsed as ex:
+                why.append('unparsed UPDATE: %s' % ex)
+                st['updates'].append(None)
+                return [], [], 0
+            m = exists
+            for t in terms:
+                c = t[1]
+                if c not in cur:
+                    why.append('term on unexpected column %s' % c); m = False
+                    continue
+                cnull, cval = cur[c]
+                if t[0] == 'IS_NULL': m = m & cnull
+                elif t[2] is None: m = False                      # col = NULL is never true
+                else: m = m & ((cnull == False) & (cval == t[2]))
+            matched = True if m else False                        # the database's decision: the path forks here
+            st['matched'] = matched
+            st['updates'].append((tab, sets, terms))
+            return [], [], (1 if matched else 0)
         return None
     con.reset(responder)
+
+    newval = {}
+    masks = None
+    exc = None
     try:
-        with db_session:
-            obj = E._find_in_db_({E.id: 1})
-            obj._rbits_ = rbits
-            obj._wbits_ = wbits
-            obj._vals_[E.a] = na
-            obj._status_ = 'modified'
+        with db_session(optimistic=optimistic):
+            g_new = G[NEW_G] if W[5] and not ng_null else None       # fetched first: a query auto-flushes pending changes
+            obj = E.get_for_update(id=1) if for_update else E.get(id=1)
+            for i, name in enumerate(ATTRS):
+                if R[i]: getattr(obj, name)
+            for i, name in enumerate(ATTRS):
+                if W[i]:
+                    if name == 'a': val = na
+                    elif name == 'f': val = nf
+                    elif name == 'x': val = nx
+                    elif name == 'v': val = nv
+                    elif name == 'n': val = None if nn_null else nn
+                    else: val = g_new
+                    newval[name] = val
+                    setattr(obj, name, val)
+            masks = (obj._rbits_, obj._wbits_, obj._status_)
+    except Exception as ex:
+        exc = ex
+    LAST.update(exc=exc, log=list(con.log), st=st)
+
+    Rset = [n for i, n in enumerate(ATTRS) if R[i]]
+    Wset = [n for i, n in enumerate(ATTRS) if W[i]]
+    if masks is None:
+        why.append('session body failed: %r' % (exc,))
+        LAST['why'] = why
+        return ok(False)
+    if masks[0] != sum(e.nvbit[n] for n in Rset): why.append('rbits %r for reads %r' % (masks[0], Rset))
+    if masks[1] != sum(e.bit[n] for n in Wset): why.append('wbits %r for writes %r' % (masks[1], Wset))
+    if masks[2] != ('modified' if Wset else 'loaded'): why.append('status %r' % (masks[2],))
+
+    if not Wset:
+        if st['updates']: why.append('UPDATE without a modified attribute')
+        if exc is not None: why.append('unexpected %r' % (exc,))
+        LAST['why'] = why
+        return ok(not why)
+
+    if len(st['updates']) != 1 or st['updates'][0] is None:
+        why.append('expected exactly one well-formed UPDATE, got %r' % (st['updates'],))
+        LAST['why'] = why
+        return ok(False)
+    tab, sets, terms = st['updates'][0]
+    matched = st['matched']
+    # S1
+    if tab != E._table_: why.append('table %r' % tab)
+    if sorted(c for c, _ in sets) != sorted(col[n] for n in Wset): why.append('SET columns %r for writes %r' % (sets, Wset))
+    else:
+        got = dict(sets)
+        for n in Wset:
+            want = newval[n]
+            if n == 'g' and want is not None: want = NEW_G
+            have = got[col[n]]
+            if (want is None) != (have is None) or (want is not None and not _same(have, want)):
+                why.append('SET %s = %r, assigned %r' % (n, have, want))
+    # S2
+    if not terms or terms[0][0] != 'EQ' or terms[0][1] != 'id' or terms[0][2] != 1: why.append('first WHERE term is not the primary key: %r' % (terms[:1],))
+    crit = terms[1:]
+    # S3
+    checking = optimistic and not for_update
+    required = [n for n in Rset if n not in Wset and n in CHECKED] if checking else []
+    if not checking and crit: why.append('optimistic terms %r in a non-optimistic session / on a locked object' % (crit,))
+    for n in required:
+        ts = [t for t in crit if t[1] == col[n]]
+        if not ts: why.append('no optimistic term for %s (read, not written)' % n); continue
+        for t in ts:
+            if loaded[n] is None:
+                if t[0] != 'IS_NULL': why.append('%s was read as NULL but is compared with =' % n)
+            elif t[0] != 'EQ' or t[2] is None or not _same(t[2], loaded[n]):
+                why.append('%s is compared with %r, value read: %r' % (n, t[1:], loaded[n]))
+    # S4
+    if matched:
+        good = True
+        for n in required:
+            cnull, cval = cur[n]
+            if loaded[n] is None: good = good & cnull
+            else: good = good & ((cnull == False) & (cval == loaded[n]))
+        if not good: why.append('row matched although a read attribute among %r changed (lost update)' % (required,))
+    else:
+        same = exists
+        for n in ('a', 'x', 'v', 'n', 'g'):
+            cnull, cval = cur[n]
+            if loaded[n] is None: same = same & cnull
+            else: same = same & ((cnull == False) & (cval == loaded[n]))
+        if same: why.append('unchanged row did not match')
+    # S5
+    if optimistic:
+        if matched:
+            if exc is not None: why.append('update applied but the session raised %r' % (exc,))
+            if con.commits != 1: why.append('commit() called %d times' % con.commits)
+        else:
+            if not isinstance(exc, (OptimisticCheckError, UnrepeatableReadError)): why.append('no row updated but the session raised %r' % (exc,))
+            if con.commits != 0: why.append('commit() called after a failed optimistic check')
+            if con.rollbacks < 1: why.append('no rollback() after a failed optimistic check')
+    elif exc is not None and not isinstance(exc, OptimisticCheckError):
+        why.append('unexpected %r' % (exc,))
+    LAST['why'] = why
+    return ok(not why)
+
+
+def _pre(R, W, L, N, C, full=False):
+    """Floats finite; in the quick tier the main harnesses run with the design's row shape (v not read, n loaded NULL, g loaded
+    non-NULL, non-NULL assignments, fixed float values); integers are unbounded (z3 Int)."""
+    if full: return math.isfinite(L[1]) and math.isfinite(N[1])
+    if FULL: return (not L[6]) and (not N[4]) and (not N[6]) and math.isfinite(L[1]) and math.isfinite(N[1])
+    return (not R[3]) and L[4] and (not L[6]) and (not N[4]) and (not N[6])
+
+
+B2 = Tuple[bool, bool]
+
+
+def upd_w00(R: B6, W: B2, L: LT, N: NT, C: CT) -> bool:
+    """
+    pre: _pre(R, W, L, N, C)
+    post: _
+    """
+    return _core(R, (False, False, False, False) + tuple(W), L, N, C)
+
+
+def upd_w01(R: B6, W: B2, L: LT, N: NT, C: CT) -> bool:
+    """
+    pre: _pre(R, W, L, N, C)
+    post: _
+    """
+    return _core(R, (True, False, False, False) + tuple(W), L, N, C)
+
+
+def upd_w02(R: B6, W: B2, L: LT, N: NT, C: CT) -> bool:
+    """
+    pre: _pre(R, W, L, N, C)
+    post: _
+    """
+    return _core(R, (False, True, False, False) + tuple(W), L, N, C)
+
+
+def upd_w03(R: B6, W: B2, L: LT, N: NT, C: CT) -> bool:
+    """
+    pre: _pre(R, W, L, N, C)
+    post: _
+    """
+    return _core(R, (True, True, False, False) + tuple(W), L, N, C)
+
+
+def upd_w04(R: B6, W: B2, L: LT, N: NT, C: CT) -> bool:
+    """
+    pre: _pre(R, W, L, N, C)
+    post: _
+    """
+    return _core(R, (False, False, True, False) + tuple(W), L, N, C)
+
+
+def upd_w05(R: B6, W: B2, L: LT, N: NT, C: CT) -> bool:
+    """
+    pre: _pre(R, W, L, N, C)
+    post: _
+    """
+    return _core(R, (True, False, True, False) + tuple(W), L, N, C)
+
+
+def upd_w06(R: B6, W: B2, L: LT, N: NT, C: CT) -> bool:
+    """
+    pre: _pre(R, W, L, N, C)
+    post: _
+    """
+    return _core(R, (False, True, True, False) + tuple(W), L, N, C)
+
+
+def upd_w07(R: B6, W: B2, L: LT, N: NT, C: CT) -> bool:
+    """
+    pre: _pre(R, W, L, N, C)
+    post: _
+    """
+    return _core(R, (True, True, True, False) + tuple(W), L, N, C)
+
+
+def upd_w08(R: B6, W: B2, L: LT, N: NT, C: CT) -> bool:
+    """
+    pre: _pre(R, W, L, N, C)
+    post: _
+    """
+    return _core(R, (False, False, False, True) + tuple(W), L, N, C)
+
+
+def upd_w09(R: B6, W: B2, L: LT, N: NT, C: CT) -> bool:
+    """
+    pre: _pre(R, W, L, N, C)
+    post: _
+    """
+    return _core(R, (True, False, False, True) + tuple(W), L, N, C)
+
+
+def upd_w10(R: B6, W: B2, L: LT, N: NT, C: CT) -> bool:
+    """
+    pre: _pre(R, W, L, N, C)
+    post: _
+    """
+    return _core(R, (False, True, False, True) + tuple(W), L, N, C)
+
+
+def upd_w11(R: B6, W: B2, L: LT, N: NT, C: CT) -> bool:
+    """
+    pre: _pre(R, W, L, N, C)
+    post: _
+    """
+    return _core(R, (True, True, False, True) + tuple(W), L, N, C)
+
+
+def upd_w12(R: B6, W: B2, L: LT, N: NT, C: CT) -> bool:
+    """
+    pre: _pre(R, W, L, N, C)
+    post: _
+    """
+    return _core(R, (False, False, True, True) + tuple(W), L, N, C)
+
+
+def upd_w13(R: B6, W: B2, L: LT, N: NT, C: CT) -> bool:
+    """
+    pre: _pre(R, W, L, N, C)
+    post: _
+    """
+    return _core(R, (True, False, True, True) + tuple(W), L, N, C)
+
+
+def upd_w14(R: B6, W: B2, L: LT, N: NT, C: CT) -> bool:
+    """
+    pre: _pre(R, W, L, N, C)
+    post: _
+    """
+    return _core(R, (False, True, True, True) + tuple(W), L, N, C)
+
+
+def upd_w15(R: B6, W: B2, L: LT, N: NT, C: CT) -> bool:
+    """
+    pre: _pre(R, W, L, N, C)
+    post: _
+    """
+    return _core(R, (True, True, True, True) + tuple(W), L, N, C)
+
+
+def _only(mask, names):
+    """True when no attribute outside `names` is selected."""
+    return not any(mask[i] for i, n in enumerate(ATTRS) if n not in names)
+
+
+def upd_nulls(R: B6, W: B6, L: LT, N: NT, C: CT) -> bool:
+    """
+    pre: _pre(R, W, L, N, C, True) and _only(R, 'ng') and _only(W, 'ng')
+    post: _
+    """
+    return _core(R, W, L, N, C, full=True)
+
+
+def upd_volatile(R: B6, W: B6, L: LT, N: NT, C: CT) -> bool:
+    """
+    pre: _pre(R, W, L, N, C, True) and _only(R, 'va') and _only(W, 'va') and L[4] and not L[6]
+    post: _
+    """
+    return _core(R, W, L, N, C, full=True)
+
+
+def upd_for_update(R: B6, W: B6, L: LT, N: NT, C: CT, optimistic: bool) -> bool:
+    """
+    pre: _pre(R, W, L, N, C, True) and _only(R, 'ang') and _only(W, 'axg') and L[4] and not L[6] and not N[6]
+    post: _
+    """
+    return _core(R, W, L, N, C, optimistic=optimistic, for_update=True, full=True)
+
+
+def upd_pessimistic(R: B6, W: B6, L: LT, N: NT, C: CT) -> bool:
+    """
+    pre: _pre(R, W, L, N, C, True) and _only(R, 'ang') and _only(W, 'axg') and L[4] and not L[6] and not N[6]
+    post: _
+    """
+    return _core(R, W, L, N, C, optimistic=False, full=True)
+
+
+def upd_pg(R: B6, W: B6, L: LT, N: NT, C: CT) -> bool:
+    """
+    pre: _pre(R, W, L, N, C, True) and _only(R, 'ang') and _only(W, 'ang') and not N[4] and not N[6] and not L[6]
+    post: _
+    """
+    return _core(R, W, L, N, C, provider='postgres', full=True)
+
+
+# ---------------------------------------------------------------------------------------------- K3: tracking step
+def track_step(rbits0: int, wbits0: int, i: int, kind: int, val: int) -> bool:
+    """
+    pre: 0 <= rbits0 < 64 and 0 <= wbits0 < 64 and 0 <= i < 6 and 0 <= kind < 3
+    pre: rbits0 & 8 == 0
+    pre: -2 ** 31 <= val < 2 ** 31
+    post: _
+    """
+    from pony.orm import db_session, rollback
+    e = ENVS['sqlite']
+    _reset(e)
+    E, G, con = e.E, e.G, e.con
+    row = {'id': 1, 'a': 5, 'f': 1.5, 'x': 6, 'v': 3, 'n': None, 'g': LOADED_G}
+
+    def responder(sql, args):
+        table, cols = select_columns(sql)
+        if table == E._table_: return [tuple(row[c] for c in cols)], [(c,) for c in cols], -1
+        if table == G._table_: return [(args[0],)], [('id',)], -1
+        return None
+    con.reset(responder)
+    name = ATTRS[i]
+    attr, bit, nvbit = e.attr[name], e.bit[name], e.nvbit[name]
+    why = []
+    with db_session:
+        try:
+            g_new = G[NEW_G]
+            obj = E.get(id=1)
             cache = obj._session_cache_
-            obj._save_pos_ = len(cache.objects_to_save)
-            cache.objects_to_save.append(obj)
-            cache.modified = True
-    except Exception as e:
-        state['exc'] = e
-    return ok('update' in state)
+            # an arbitrary tracked state of a loaded object
+            obj._rbits_, obj._wbits_ = rbits0, wbits0
+            if wbits0 != 0:
+                obj._status_ = 'modified'
+                obj._save_pos_ = len(cache.objects_to_save)
+                cache.objects_to_save.append(obj)
+                cache.modified = True
+            written = (wbits0 & nvbit) != 0 if nvbit else False
+            if kind == 0:
+                getattr(obj, name)
+                exp_r = rbits0 if written else rbits0 | nvbit
+                exp_w = wbits0
+            elif kind == 1:
+                setattr(obj, name, (g_new if name == 'g' else float(val) if name == 'f' else val))
+                exp_r, exp_w = rbits0, wbits0 | bit
+            else:
+                E._set_rbits([obj], [attr])          # what _fetch_objects does for the attributes a query used
+                exp_r = rbits0 if written else rbits0 | nvbit
+                exp_w = wbits0
+            if obj._rbits_ != exp_r: why.append('rbits')
+            if obj._wbits_ != exp_w: why.append('wbits')
+            if obj._rbits_ & 8: why.append('volatile attribute marked as read')
+            if (obj._status_ == 'modified') != (exp_w != 0): why.append('status')
+            if cache.objects_to_save.count(obj) != (1 if exp_w != 0 else 0): why.append('objects_to_save')
+        finally:
+            rollback()
+    LAST['why'] = why
+    return ok(not why)
+
+
+MAIN = ['upd_w%02d' % k for k in range(16)]
+HARNESSES = MAIN + ['upd_nulls', 'upd_volatile', 'upd_for_update', 'upd_pessimistic', 'upd_pg', 'track_step']
+
+
+def explain(fn, **kw):
+    setup()
+    r = globals()[fn](**kw)
+    return r, list(LAST.get('why', ())), LAST.get('log')
+
